@@ -54,14 +54,15 @@ VARIABLES
   pending,   \* id of the keep-alive removed from rbuf whose reply is not finished (0 = none)
   pongleft,  \* bytes of that reply still to be written
   wcur, wleft, wlen, nwrites,  \* user write in progress: id, bytes left, total ; writes started
-  out,       \* what the transport accepted: Seq(<<"p"|"w", id, idx>>) ; datagram/ws: one unit per write
+  wafter,    \* a user write() is flushing an interrupted keep-alive reply before its own frame
+  out,       \* what the transport accepted: Seq(<<"p"|"w", id, idx, frame length>>)
   units,     \* datagram / ws transports: lengths of the units (datagrams, messages) written
   results,   \* what read() returned so far: Seq([t, id])
   nerr, npend, ncancel, ntimeout,
   hist       \* script of the externally visible steps (hidden by VIEW in exhaustive runs)
 
 core == <<cfg, sent, wsq, packed, net, eof, abuf, rbuf, roff, pc, pending, pongleft,
-          wcur, wleft, wlen, nwrites, out, units, results, nerr, npend, ncancel, ntimeout>>
+          wcur, wleft, wlen, nwrites, wafter, out, units, results, nerr, npend, ncancel, ntimeout>>
 vars == <<core, hist>>
 
 Tok(i, k) == <<i, k>>
@@ -83,7 +84,7 @@ Init ==
   /\ (cfg.transport = "ws" => cfg.flavor = "tokio")
   /\ sent = <<>> /\ wsq = <<>> /\ packed = 0 /\ net = <<>> /\ eof = FALSE /\ abuf = <<>>
   /\ rbuf = <<>> /\ roff = 0 /\ pc = "idle" /\ pending = 0 /\ pongleft = 0
-  /\ wcur = 0 /\ wleft = 0 /\ wlen = 0 /\ nwrites = 0
+  /\ wcur = 0 /\ wleft = 0 /\ wlen = 0 /\ nwrites = 0 /\ wafter = FALSE
   /\ out = <<>> /\ units = <<>> /\ results = <<>>
   /\ nerr = 0 /\ npend = 0 /\ ncancel = 0 /\ ntimeout = 0
   /\ hist = <<>>
@@ -97,7 +98,7 @@ PeerSend(n, c) ==
   /\ IF IsStream THEN /\ net' = net \o FrameToks(Len(sent) + 1, n) /\ UNCHANGED wsq
                  ELSE /\ wsq' = wsq \o FrameToks(Len(sent) + 1, n) /\ UNCHANGED net
   /\ Log(H("send", n, c))
-  /\ UNCHANGED <<cfg, packed, eof, abuf, rbuf, roff, pc, pending, pongleft, wcur, wleft, wlen, nwrites,
+  /\ UNCHANGED <<cfg, packed, eof, abuf, rbuf, roff, pc, pending, pongleft, wcur, wleft, wlen, nwrites, wafter,
                  out, units, results, nerr, npend, ncancel, ntimeout>>
 
 \* a datagram carries one or more whole frames
@@ -109,7 +110,7 @@ PeerDgram(fs) ==
      /\ net' = Append(net, toks)
   /\ sent' = sent \o fs
   /\ LogSeq([j \in 1..Len(fs) |-> H(IF j = 1 THEN "dgram" ELSE "dgram+", fs[j].len, fs[j].cls)])
-  /\ UNCHANGED <<cfg, wsq, packed, eof, abuf, rbuf, roff, pc, pending, pongleft, wcur, wleft, wlen, nwrites,
+  /\ UNCHANGED <<cfg, wsq, packed, eof, abuf, rbuf, roff, pc, pending, pongleft, wcur, wleft, wlen, nwrites, wafter,
                  out, units, results, nerr, npend, ncancel, ntimeout>>
 
 \* ws: the relay packs the next k bytes of its byte stream into one binary message
@@ -118,7 +119,7 @@ PeerWsPack(k) ==
   /\ net' = Append(net, [kind |-> "binary", toks |-> SubSeq(wsq, 1, k)])
   /\ wsq' = SubSeq(wsq, k + 1, Len(wsq)) /\ packed' = packed + k
   /\ Log(H("wsmsg", k, "binary"))
-  /\ UNCHANGED <<cfg, sent, eof, abuf, rbuf, roff, pc, pending, pongleft, wcur, wleft, wlen, nwrites,
+  /\ UNCHANGED <<cfg, sent, eof, abuf, rbuf, roff, pc, pending, pongleft, wcur, wleft, wlen, nwrites, wafter,
                  out, units, results, nerr, npend, ncancel, ntimeout>>
 
 \* ws: a message that is not binary (text, ping, pong) or an empty binary message
@@ -126,13 +127,13 @@ PeerWsOther(kind) ==
   /\ IsWs /\ ~eof /\ Len(net) < 2
   /\ net' = Append(net, [kind |-> kind, toks |-> <<>>])
   /\ Log(H("wsmsg", 0, kind))
-  /\ UNCHANGED <<cfg, sent, wsq, packed, eof, abuf, rbuf, roff, pc, pending, pongleft, wcur, wleft, wlen, nwrites,
+  /\ UNCHANGED <<cfg, sent, wsq, packed, eof, abuf, rbuf, roff, pc, pending, pongleft, wcur, wleft, wlen, nwrites, wafter,
                  out, units, results, nerr, npend, ncancel, ntimeout>>
 
 PeerClose ==
   /\ cfg.transport \in {"stream", "ws"} /\ ~eof /\ eof' = TRUE
   /\ Log(H("close", 0, ""))
-  /\ UNCHANGED <<cfg, sent, wsq, packed, net, abuf, rbuf, roff, pc, pending, pongleft, wcur, wleft, wlen, nwrites,
+  /\ UNCHANGED <<cfg, sent, wsq, packed, net, abuf, rbuf, roff, pc, pending, pongleft, wcur, wleft, wlen, nwrites, wafter,
                  out, units, results, nerr, npend, ncancel, ntimeout>>
 
 ----------------------------------------------------------------------------
@@ -142,7 +143,7 @@ ReadCall ==
   /\ pc = "idle"
   /\ pc' = IF pending # 0 THEN "pong" ELSE "loop"    \* cancel-safe policy: finish an interrupted reply first
   /\ Log(H("read", 0, ""))
-  /\ UNCHANGED <<cfg, sent, wsq, packed, net, eof, abuf, rbuf, roff, pending, pongleft, wcur, wleft, wlen, nwrites,
+  /\ UNCHANGED <<cfg, sent, wsq, packed, net, eof, abuf, rbuf, roff, pending, pongleft, wcur, wleft, wlen, nwrites, wafter,
                  out, units, results, nerr, npend, ncancel, ntimeout>>
 
 HeadId  == rbuf[1][1]
@@ -178,7 +179,7 @@ TryDecode ==
                     /\ Deliver([t |-> "pkt", id |-> id]) /\ pc' = "idle"
                     /\ UNCHANGED <<pending, pongleft>>
      ELSE /\ pc' = "fill" /\ UNCHANGED <<rbuf, roff, results, pending, pongleft, hist>>
-  /\ UNCHANGED <<cfg, sent, wsq, packed, net, eof, abuf, wcur, wleft, wlen, nwrites, out, units,
+  /\ UNCHANGED <<cfg, sent, wsq, packed, net, eof, abuf, wcur, wleft, wlen, nwrites, wafter, out, units,
                  nerr, npend, ncancel, ntimeout>>
 
 \* BytesMut::chunk_mut(): the spare capacity, reclaimed when exhausted.  Any
@@ -196,7 +197,7 @@ FillStream(k) ==
   /\ k \in 1..Min2(Offered, Len(net))
   /\ Filled(SubSeq(net, 1, k)) /\ net' = SubSeq(net, k + 1, Len(net))
   /\ Log(H("fill", k, ""))
-  /\ UNCHANGED <<cfg, sent, wsq, packed, eof, abuf, pending, pongleft, wcur, wleft, wlen, nwrites, out, units,
+  /\ UNCHANGED <<cfg, sent, wsq, packed, eof, abuf, pending, pongleft, wcur, wleft, wlen, nwrites, wafter, out, units,
                  results, nerr, npend, ncancel, ntimeout>>
 
 \* trace form: the spare capacity offered by the buffer is an observed input, not predicted
@@ -205,7 +206,7 @@ FillStreamObs(k, offered) ==
   /\ rbuf' = rbuf \o SubSeq(net, 1, k) /\ roff' = 0 /\ pc' = "loop"
   /\ net' = SubSeq(net, k + 1, Len(net))
   /\ Log(H("fill", k, ""))
-  /\ UNCHANGED <<cfg, sent, wsq, packed, eof, abuf, pending, pongleft, wcur, wleft, wlen, nwrites, out, units,
+  /\ UNCHANGED <<cfg, sent, wsq, packed, eof, abuf, pending, pongleft, wcur, wleft, wlen, nwrites, wafter, out, units,
                  results, nerr, npend, ncancel, ntimeout>>
 
 \* required: recv into a full-size scratch, keep what does not fit in the adaptor buffer
@@ -221,7 +222,7 @@ FillUdpBuffered ==
            /\ Filled(SubSeq(d, 1, k)) /\ abuf' = SubSeq(d, k + 1, Len(d))
            /\ Log(H("fill", k, "dgram"))
         /\ net' = Tail(net)
-  /\ UNCHANGED <<cfg, sent, wsq, packed, eof, pending, pongleft, wcur, wleft, wlen, nwrites, out, units,
+  /\ UNCHANGED <<cfg, sent, wsq, packed, eof, pending, pongleft, wcur, wleft, wlen, nwrites, wafter, out, units,
                  results, nerr, npend, ncancel, ntimeout>>
 
 \* deviation: recv straight into the caller's slice - the kernel discards the excess
@@ -230,7 +231,7 @@ FillUdpDirect ==
   /\ LET d == Head(net)  k == Min2(Offered, Len(d)) IN
      /\ Filled(SubSeq(d, 1, k)) /\ Log(H("fill", k, "dgram"))
   /\ net' = Tail(net)
-  /\ UNCHANGED <<cfg, sent, wsq, packed, eof, abuf, pending, pongleft, wcur, wleft, wlen, nwrites, out, units,
+  /\ UNCHANGED <<cfg, sent, wsq, packed, eof, abuf, pending, pongleft, wcur, wleft, wlen, nwrites, wafter, out, units,
                  results, nerr, npend, ncancel, ntimeout>>
 
 \* ws adaptor: drain the adaptor buffer first; otherwise pull messages, skipping
@@ -250,7 +251,7 @@ FillWs ==
            /\ Filled(SubSeq(d, 1, k)) /\ abuf' = SubSeq(d, k + 1, Len(d))
            /\ net' = Tail(ms)
            /\ Log(H("fill", k, "msg"))
-  /\ UNCHANGED <<cfg, sent, wsq, packed, eof, pending, pongleft, wcur, wleft, wlen, nwrites, out, units,
+  /\ UNCHANGED <<cfg, sent, wsq, packed, eof, pending, pongleft, wcur, wleft, wlen, nwrites, wafter, out, units,
                  results, nerr, npend, ncancel, ntimeout>>
 
 NothingReadable ==
@@ -263,7 +264,7 @@ FillEof ==
   /\ pc = "fill" /\ eof /\ NothingReadable
   /\ Deliver([t |-> "disconnected", id |-> 0]) /\ pc' = "closed"
   /\ net' = IF IsWs THEN <<>> ELSE net
-  /\ UNCHANGED <<cfg, sent, wsq, packed, eof, abuf, rbuf, roff, pending, pongleft, wcur, wleft, wlen, nwrites,
+  /\ UNCHANGED <<cfg, sent, wsq, packed, eof, abuf, rbuf, roff, pending, pongleft, wcur, wleft, wlen, nwrites, wafter,
                  out, units, nerr, npend, ncancel, ntimeout>>
 
 \* a transient transport error: read() returns it, the buffer keeps what it had
@@ -272,7 +273,7 @@ FillErr ==
   /\ nerr' = nerr + 1 /\ pc' = "idle"
   /\ results' = Append(results, [t |-> "io_err", id |-> 0])
   /\ LogSeq(<<H("err", 0, ""), H("result", 0, "io_err")>>)
-  /\ UNCHANGED <<cfg, sent, wsq, packed, net, eof, abuf, rbuf, roff, pending, pongleft, wcur, wleft, wlen, nwrites,
+  /\ UNCHANGED <<cfg, sent, wsq, packed, net, eof, abuf, rbuf, roff, pending, pongleft, wcur, wleft, wlen, nwrites, wafter,
                  out, units, npend, ncancel, ntimeout>>
 
 \* tokio: the transport is not ready; the read future stays suspended
@@ -280,7 +281,7 @@ FillPending ==
   /\ pc = "fill" /\ IsTokio /\ npend < MaxPending
   /\ npend' = npend + 1 /\ Log(H("pend", 0, "r"))
   /\ UNCHANGED <<cfg, sent, wsq, packed, net, eof, abuf, rbuf, roff, pc, pending, pongleft, wcur, wleft, wlen,
-                 nwrites, out, units, results, nerr, ncancel, ntimeout>>
+                 nwrites, wafter, out, units, results, nerr, ncancel, ntimeout>>
 
 \* tokio: nothing arrived for DEFAULT_TIMEOUT_SECS
 FillTimeout ==
@@ -288,66 +289,80 @@ FillTimeout ==
   /\ ntimeout' = ntimeout + 1 /\ pc' = "idle"
   /\ results' = Append(results, [t |-> "timeout", id |-> 0])
   /\ LogSeq(<<H("timeout", 0, ""), H("result", 0, "timeout")>>)
-  /\ UNCHANGED <<cfg, sent, wsq, packed, net, eof, abuf, rbuf, roff, pending, pongleft, wcur, wleft, wlen, nwrites,
+  /\ UNCHANGED <<cfg, sent, wsq, packed, net, eof, abuf, rbuf, roff, pending, pongleft, wcur, wleft, wlen, nwrites, wafter,
                  out, units, nerr, npend, ncancel>>
 
 \* the keep-alive reply: the transport accepts k of the remaining bytes
 PongWrite(k) ==
-  /\ pc = "pong" /\ k \in 1..pongleft /\ (Atomic => k = pongleft)
-  /\ out' = out \o [j \in 1..k |-> <<"p", pending, 4 - pongleft + j>>]
+  /\ pc = "pong" /\ pongleft > 0 /\ k \in 1..pongleft /\ (Atomic => k = pongleft)
+  /\ out' = out \o [j \in 1..k |-> <<"p", pending, 4 - pongleft + j, 4>>]
   /\ units' = IF Atomic THEN Append(units, k) ELSE units
   /\ IF WritePolicy = "single_write" \/ pongleft = k
-     THEN \* single_write: one write() call, the result is ignored, the tail is dropped
-          /\ pongleft' = 0 /\ pc' = "idle" /\ pending' = 0
-          /\ results' = Append(results, [t |-> "pkt", id |-> pending])
-          /\ LogSeq(<<H("pongw", k, ""), H("result", pending, "pkt")>>)
+     THEN IF wafter
+          THEN \* the reply was being flushed by a user write(): the frame follows, the packet waits for the next read()
+               /\ pongleft' = 0 /\ pc' = "write" /\ wafter' = FALSE /\ Log(H("pongw", k, ""))
+               /\ UNCHANGED <<pending, results>>
+          ELSE \* single_write: one write() call, the result is ignored, the tail is dropped
+               /\ pongleft' = 0 /\ pc' = "idle" /\ pending' = 0
+               /\ results' = Append(results, [t |-> "pkt", id |-> pending])
+               /\ LogSeq(<<H("pongw", k, ""), H("result", pending, "pkt")>>)
+               /\ UNCHANGED wafter
      ELSE /\ pongleft' = pongleft - k /\ Log(H("pongw", k, ""))
-          /\ UNCHANGED <<pc, pending, results>>
+          /\ UNCHANGED <<pc, pending, results, wafter>>
   /\ UNCHANGED <<cfg, sent, wsq, packed, net, eof, abuf, rbuf, roff, wcur, wleft, wlen, nwrites,
                  nerr, npend, ncancel, ntimeout>>
 
+\* read() after a user write flushed the reply: the keep-alive is handed over at once
+PongFinish ==
+  /\ pc = "pong" /\ pongleft = 0 /\ pending # 0
+  /\ Deliver([t |-> "pkt", id |-> pending]) /\ pending' = 0 /\ pc' = "idle"
+  /\ UNCHANGED <<cfg, sent, wsq, packed, net, eof, abuf, rbuf, roff, pongleft, wcur, wleft, wlen, nwrites, wafter,
+                 out, units, nerr, npend, ncancel, ntimeout>>
+
 PongPending ==
-  /\ pc = "pong" /\ IsTokio /\ npend < MaxPending
+  /\ pc = "pong" /\ pongleft > 0 /\ IsTokio /\ npend < MaxPending
   /\ npend' = npend + 1 /\ Log(H("pend", 0, "w"))
   /\ UNCHANGED <<cfg, sent, wsq, packed, net, eof, abuf, rbuf, roff, pc, pending, pongleft, wcur, wleft, wlen,
-                 nwrites, out, units, results, nerr, ncancel, ntimeout>>
+                 nwrites, wafter, out, units, results, nerr, ncancel, ntimeout>>
 
 \* tokio: the read future is dropped at a suspension point (select! against a timer)
 Cancel ==
-  /\ IsTokio /\ pc \in {"fill", "pong"} /\ ncancel < MaxCancel
+  /\ IsTokio /\ pc \in {"fill", "pong"} /\ (pc = "pong" => pongleft > 0 /\ ~wafter) /\ ncancel < MaxCancel
   /\ ncancel' = ncancel + 1 /\ pc' = "idle"
   /\ IF PongPolicy = "cancel_safe"
      THEN UNCHANGED <<pending, pongleft>>            \* the reply and its packet survive in the connection
      ELSE /\ pending' = 0 /\ pongleft' = 0           \* they lived in the future: gone
   /\ Log(H("cancel", 0, ""))
-  /\ UNCHANGED <<cfg, sent, wsq, packed, net, eof, abuf, rbuf, roff, wcur, wleft, wlen, nwrites, out, units,
+  /\ UNCHANGED <<cfg, sent, wsq, packed, net, eof, abuf, rbuf, roff, wcur, wleft, wlen, nwrites, wafter, out, units,
                  results, nerr, npend, ntimeout>>
 
 ----------------------------------------------------------------------------
 (* write() *)
 
 WriteCall(n) ==
-  /\ pc = "idle" /\ pending = 0 /\ nwrites < MaxWrites
-  /\ nwrites' = nwrites + 1 /\ wcur' = nwrites + 1 /\ wleft' = n /\ wlen' = n /\ pc' = "write"
+  /\ pc = "idle" /\ nwrites < MaxWrites
+  /\ nwrites' = nwrites + 1 /\ wcur' = nwrites + 1 /\ wleft' = n /\ wlen' = n
+  \* an interrupted keep-alive reply is completed first, so that frames never interleave
+  /\ IF pending # 0 /\ pongleft > 0 THEN pc' = "pong" /\ wafter' = TRUE ELSE pc' = "write" /\ wafter' = FALSE
   /\ Log(H("wcall", n, ""))
   /\ UNCHANGED <<cfg, sent, wsq, packed, net, eof, abuf, rbuf, roff, pending, pongleft, out, units, results,
                  nerr, npend, ncancel, ntimeout>>
 
 WriteAccept(k) ==
   /\ pc = "write" /\ k \in 1..wleft /\ (Atomic => k = wleft)
-  /\ out' = out \o [j \in 1..k |-> <<"w", wcur, wlen - wleft + j>>]
+  /\ out' = out \o [j \in 1..k |-> <<"w", wcur, wlen - wleft + j, wlen>>]
   /\ units' = IF Atomic THEN Append(units, k) ELSE units
   /\ IF WritePolicy = "single_write" \/ wleft = k
      THEN /\ wleft' = 0 /\ pc' = "idle" /\ LogSeq(<<H("wacc", k, ""), H("wdone", wcur, "")>>)
      ELSE /\ wleft' = wleft - k /\ Log(H("wacc", k, "")) /\ UNCHANGED pc
-  /\ UNCHANGED <<cfg, sent, wsq, packed, net, eof, abuf, rbuf, roff, pending, pongleft, wcur, wlen, nwrites,
+  /\ UNCHANGED <<cfg, sent, wsq, packed, net, eof, abuf, rbuf, roff, pending, pongleft, wcur, wlen, nwrites, wafter,
                  results, nerr, npend, ncancel, ntimeout>>
 
 WritePending ==
   /\ pc = "write" /\ IsTokio /\ npend < MaxPending
   /\ npend' = npend + 1 /\ Log(H("pend", 0, "w"))
   /\ UNCHANGED <<cfg, sent, wsq, packed, net, eof, abuf, rbuf, roff, pc, pending, pongleft, wcur, wleft, wlen,
-                 nwrites, out, units, results, nerr, ncancel, ntimeout>>
+                 nwrites, wafter, out, units, results, nerr, ncancel, ntimeout>>
 
 ----------------------------------------------------------------------------
 Frame(n, c) == [len |-> n, cls |-> c]
@@ -364,7 +379,7 @@ Next ==
   \/ FillUdpBuffered \/ FillUdpDirect \/ FillWs
   \/ FillEof \/ FillErr \/ FillPending \/ FillTimeout
   \/ \E k \in 1..4 : PongWrite(k)
-  \/ PongPending \/ Cancel
+  \/ PongPending \/ PongFinish \/ Cancel
   \/ \E n \in WLens : WriteCall(n)
   \/ \E k \in 1..12 : WriteAccept(k)
   \/ WritePending
@@ -419,28 +434,36 @@ FramingInv == Len(rbuf) > 0 => rbuf[1][2] = 1
 Contiguous(s) == \A i \in 1..(Len(s) - 1) :
                     \/ (s[i + 1][1] = s[i][1] /\ s[i + 1][2] = s[i][2] + 1)
                     \/ (s[i + 1][1] = s[i][1] + 1 /\ s[i + 1][2] = 1 /\ s[i][2] = sent[s[i][1]].len)
-BufferInv == Contiguous(rbuf \o abuf)
+BufferInv == LET b == rbuf \o abuf IN Contiguous(b)
 
 \* C07: replies are whole, contiguous, one per delivered keep-alive, and precede the delivery
 PTokens == SelectSeq(out, LAMBDA x : x[1] = "p")
 KaDelivered == SelectSeq(results, LAMBDA r : r.t = "pkt" /\ sent[r.id].cls = "ka")
 PongsOk ==
-  /\ Len(PTokens) = 4 * Len(KaDelivered) + (IF pending # 0 THEN 4 - pongleft ELSE 0)
-  /\ \A i \in 1..Len(PTokens) : PTokens[i][3] = ((i - 1) % 4) + 1
-  /\ \A i \in 1..Len(KaDelivered) : PTokens[4 * i][2] = KaDelivered[i].id
+  LET pt == PTokens  kd == KaDelivered IN
+  /\ Len(pt) = 4 * Len(kd) + (IF pending # 0 THEN 4 - pongleft ELSE 0)
+  /\ \A i \in 1..Len(pt) : pt[i][3] = ((i - 1) % 4) + 1
+  /\ \A i \in 1..Len(kd) : pt[4 * i][2] = kd[i].id
 \* at quiescence no partial reply is left on the outgoing side (C19)
-NoPartialPong == (pc \in {"idle", "closed"} /\ pending = 0) => Len(PTokens) % 4 = 0
+NoPartialPong == (pc \in {"idle", "closed"} /\ pending = 0) => (LET pt == PTokens IN Len(pt) % 4 = 0)
 
 \* C06: user frames reach the transport complete, contiguous, in call order
 WTokens == SelectSeq(out, LAMBDA x : x[1] = "w")
 WritesOk ==
-  /\ \A i \in 1..Len(WTokens) :
-        IF i = 1 THEN WTokens[1][2] = 1 /\ WTokens[1][3] = 1
-        ELSE \/ (WTokens[i][2] = WTokens[i - 1][2] /\ WTokens[i][3] = WTokens[i - 1][3] + 1)
-             \/ (WTokens[i][2] = WTokens[i - 1][2] + 1 /\ WTokens[i][3] = 1)
+  LET wt == WTokens IN
+  /\ \A i \in 1..Len(wt) :
+        IF i = 1 THEN wt[1][2] = 1 /\ wt[1][3] = 1
+        ELSE \/ (wt[i][2] = wt[i - 1][2] /\ wt[i][3] = wt[i - 1][3] + 1)
+             \/ (wt[i][2] = wt[i - 1][2] + 1 /\ wt[i][3] = 1)
   \* a finished write left its whole frame behind
-  /\ (pc # "write" /\ nwrites > 0 /\ Len(WTokens) > 0) => WTokens[Len(WTokens)][3] = wlen
-  /\ (pc # "write") => Cardinality({WTokens[i][2] : i \in 1..Len(WTokens)}) = nwrites
+  /\ (pc # "write" /\ ~wafter /\ nwrites > 0 /\ Len(wt) > 0) => wt[Len(wt)][3] = wlen
+  /\ (pc # "write" /\ ~wafter) => (IF Len(wt) = 0 THEN nwrites = 0 ELSE wt[Len(wt)][2] = nwrites)
+
+\* C06 C07 C19: what leaves is a sequence of whole frames (only the last may be unfinished): replies and
+\* user frames never interleave
+OutContig == \A i \in 1..(Len(out) - 1) :
+                \/ (out[i + 1][1] = out[i][1] /\ out[i + 1][2] = out[i][2] /\ out[i + 1][3] = out[i][3] + 1)
+                \/ (out[i][3] = out[i][4] /\ out[i + 1][3] = 1)
 
 \* C08 / C20: on datagram and message transports every written frame is exactly one unit
 UnitsOk == Atomic => \A i \in 1..Len(units) : units[i] \in (WLens \cup {4})
@@ -455,7 +478,8 @@ ErrNoLoss == [][(Len(results') > Len(results) /\ results'[Len(results')].t \in {
 TypeOK ==
   /\ pc \in {"idle", "loop", "fill", "pong", "write", "closed", "dead"}
   /\ pongleft \in 0..4 /\ wleft \in 0..12
-  /\ (pc = "pong" => pending # 0 /\ pongleft > 0)
+  /\ (pc = "pong" => pending # 0)
+  /\ (wafter => pc = "pong")
   /\ roff >= 0
 
 \* liveness (FairSpec only): every frame that arrived is eventually delivered
